@@ -52,11 +52,19 @@ type Case struct {
 	Sched      []string        `json:"sched"`
 	Cut        int             `json:"cut"`
 	Slow       []int64         `json:"slow"` // jitter mode: [class byte ('r','w','s' or 0), worker index, microseconds]
-	Weights    map[string]int  `json:"weights"` // schedule bias of random walks: weight per goroutine class r|w|s|c
+	Weights    map[string]int  `json:"weights"`
+	Wit        []WitStep       `json:"wit"`      // kind "witness": steps of a TLC counterexample of a deviating Model
+	Attempts   int             `json:"attempts"` // how often to try to follow it (select outcomes are random) // schedule bias of random walks: weight per goroutine class r|w|s|c
 	Raw        json.RawMessage `json:"-"`
 }
 
 type M = map[string]interface{}
+
+// WitStep is one step of a witness: goroutine and the completion event its step must produce ("x" = external cancel).
+type WitStep struct {
+	G string `json:"g"`
+	A string `json:"a"`
+}
 
 func errClass(err error) string {
 	switch {
@@ -87,6 +95,8 @@ func runCase(c Case) M {
 	sc.CtxDone = func() bool { return ctx.Err() != nil || closed || sc.Exited("s") }
 
 	script := append([]string(nil), c.Script...)
+	witness := c.Kind == "witness"
+	wi := 0
 	sc.Go("c")
 	go func() {
 		doClose := func() {
@@ -174,6 +184,22 @@ func runCase(c Case) M {
 			break
 		}
 		var p *sched.Pending
+		expect := ""
+		if witness && wi < len(c.Wit) && diverged == "" {
+			st := c.Wit[wi]
+			wi++
+			if st.G == "x" {
+				sc.NoteX("x.cancel", nil)
+				cancel()
+				continue
+			}
+			q := sc.Parked(st.G)
+			if q == nil || !sc.IsEnabled(q) {
+				diverged = fmt.Sprintf("witness step %d: %s cannot take a step (parked=%v)", wi, st.G, sc.ParkedSites())
+			} else {
+				p, expect = q, st.A
+			}
+		}
 		if forced && fi2 < len(c.Sched) && diverged == "" {
 			// follow the model's behaviour: next process name whose step is not already covered by a rendezvous
 			for fi2 < len(c.Sched) && skip[c.Sched[fi2]] > 0 {
@@ -195,15 +221,28 @@ func runCase(c Case) M {
 			}
 		}
 		if p == nil {
-			if forced {
+			if forced || witness {
 				p = en[len(en)-1] // drain deterministically
 			} else {
 				p = pick(rng, en, c.Weights)
 			}
 		}
 		schedTaken = append(schedTaken, p.G)
+		before := len(sc.Log())
 		if err := sc.Step(p); err != nil {
 			fail("hang", err)
+		}
+		if expect != "" {
+			got := ""
+			for _, e := range sc.Log()[before:] {
+				if e.G == p.G && !strings.HasSuffix(e.Site, "?") {
+					got = e.Site
+					break
+				}
+			}
+			if got != expect {
+				diverged = fmt.Sprintf("witness step %d: %s completed with %q, the witness has %q (select chose otherwise, or the code differs)", wi, p.G, got, expect)
+			}
 		}
 		step++
 		if step > 100000 {
@@ -642,6 +681,16 @@ func main() {
 			rec = runJitter(c)
 		} else {
 			rec = runCase(c)
+			if c.Kind == "witness" {
+				n := c.Attempts
+				if n <= 0 {
+					n = 40
+				}
+				for a := 1; a < n && rec["diverged"].(string) != "" && rec["run"].(M)["outcome"].(string) == "ok"; a++ {
+					rec = runCase(c)
+				}
+				rec["followed"] = rec["diverged"].(string) == ""
+			}
 		}
 		b, err := json.Marshal(rec)
 		vio.Must(err, "marshal")
